@@ -1967,6 +1967,23 @@ func ruleLoopVarAddrKept(id, pkg string) func(*Checker) {
 				if len(loopStores) == 0 {
 					return
 				}
+				// an accumulator (every store inside the loop builds on the variable's own value: diags =
+				// append(diags, …)) is one variable on purpose; a loop variable is assigned the next element
+				accumulates := true
+				for _, st := range loopStores {
+					self := false
+					for w := range p.backSlice(st.Val, 0) {
+						if ld, ok := w.(*ssa.UnOp); ok && ld.Op == token.MUL && ld.X == ssa.Value(al) {
+							self = true
+						}
+					}
+					if !self {
+						accumulates = false
+					}
+				}
+				if accumulates {
+					return
+				}
 				inLoop := func(b *ssa.BasicBlock) bool {
 					for _, st := range loopStores {
 						if b == st.Block() || (reaches(st.Block(), b) && reaches(b, st.Block())) {
